@@ -1125,6 +1125,11 @@ class Molecules:
                 raise ValueError(
                     f"Cannot append molecules with extra columns: {extra}."
                 )
+        if feat.shape != (0, 0) and len(feat) != pos.shape[0]:
+            raise ValueError(
+                f"Length mismatch. There are {pos.shape[0]} molecules but "
+                f"{len(feat)} features were given."
+            )
         self._pos = pos
         self._rotator = Rotation.from_quat(rot)
         self._features = feat
